@@ -80,7 +80,8 @@ FAMILY_ANCHORS = ["object", "A", "Type[A]", "Callable[[], A]", "Callable[[A], A]
 
 
 class Universe:
-    def __init__(self, ctx: Ctx, annotations: list[str] | None = None, family: list[list[str]] | None = None):
+    def __init__(self, ctx: Ctx, annotations: list[str] | None = None, family: list[list[str]] | None = None,
+                 nest_thorough: bool | None = None):
         fixed_model = fixture.ATOMS + fixture.model_depth1() + fixture.model_depth2()
         if annotations is None:
             rnd = random_annotations(ctx, ctx.pick(24, 260), ctx.pick(3, 4))
@@ -90,7 +91,11 @@ class Universe:
         self.annotations = annotations
         self.family = family
         fam_funcs = [src.split("(", 1)[0][4:] for _, src in family]          # "def g12(…" -> "g12"
-        self.w = real.World(annotations, fixture.EXTRA_FUNCS + fam_funcs, "".join(src for _, src in family))
+        self.nest_thorough = (not ctx.quick()) if nest_thorough is None else nest_thorough
+        nest_src, nest = fixture.nest_family(self.nest_thorough)
+        nest_anns = [a for _, a in nest if a not in annotations]
+        self.w = real.World(annotations + nest_anns, fixture.EXTRA_FUNCS + fam_funcs,
+                            "".join(src for _, src in family) + nest_src)
         self.terms = real.Terms(self.w)
         self.names: list[str] = []
         self.types: list = []
@@ -120,9 +125,23 @@ class Universe:
             self.term.append(None)
         self.index = {n: i for i, n in enumerate(self.names)}
         self.fam_idx = [self.index[a] for a in FAMILY_ANCHORS if a in self.index] + list(range(len(self.main_idx), len(self.types)))
+        # nested near-equal pairs (their own cold/warm/cold passes and law search)
+        self.nest_idx: list[int] = []
+        for disp, ann in nest:
+            if disp in self.index:
+                self.nest_idx.append(self.index[disp])
+                continue
+            t = self.w.types[ann]
+            if real.contains_any(t):
+                raise ToolFailure(f"nest family member {disp} contains Any")
+            self.index[disp] = len(self.types)
+            self.nest_idx.append(len(self.types))
+            self.names.append(disp)
+            self.types.append(t)
+            self.term.append(None)
 
     def replay_detail(self) -> dict:
-        return {"annotations": self.annotations, "family": self.family}
+        return {"annotations": self.annotations, "family": self.family, "nest_thorough": self.nest_thorough}
 
 
 # ------------------------------------------------------------------------------------ kinds / cells
@@ -234,6 +253,17 @@ def meet_cell(ops, a, b) -> str:
         if ((is_subtype(x, y) or is_subtype(y, x)) and not is_proper_subtype(x, y, ignore_promotions=True)
                 and not is_proper_subtype(y, x, ignore_promotions=True)):
             return FC08B_CELL
+    from mypy.types import TupleType
+    if (isinstance(pa, TupleType) and isinstance(pb, TupleType) and len(pa.items) == len(pb.items)
+            and pa.partial_fallback.type is not pb.partial_fallback.type
+            and not (kind(a) == "namedtuple" and kind(b) == "tuple")):
+        # F23's defect with other fallbacks (tuple subclass / NamedTuple / plain tuple): visit_tuple_type builds the
+        # meet with tuple_fallback(t), the second operand's fallback, whatever the first operand's is
+        ops.reset()
+        m = get_proper_type(ops.meet_types(a, b))
+        if (isinstance(m, TupleType) and m.partial_fallback.type is pb.partial_fallback.type
+                and ops.is_subtype(m, b) and not ops.is_subtype(m, a)):
+            return "tuple×tuple[different fallbacks; the meet takes the second operand's]"
     return callable_cell(ops, a, b, "meet") or f"{kind(a)}×{kind(b)}"
 
 
@@ -263,7 +293,7 @@ def bound_fails(ops, x, y, op: str) -> bool:
 def components(a, b):
     """Corresponding component pairs of two types of the same shape, with the operation the visitors apply to
     them relative to the outer one ('same' / 'dual' / 'either')."""
-    from mypy.types import CallableType, Instance, TupleType, TypeType, UnpackType, get_proper_type
+    from mypy.types import CallableType, Instance, TupleType, TypedDictType, TypeType, UnpackType, get_proper_type
     pa, pb = get_proper_type(a), get_proper_type(b)
     out = []
     if isinstance(pa, Instance) and isinstance(pb, Instance) and pa.type is pb.type and len(pa.args) == len(pb.args):
@@ -276,6 +306,8 @@ def components(a, b):
         out.append((pa.ret_type, pb.ret_type, "same"))
     elif isinstance(pa, TypeType) and isinstance(pb, TypeType):
         out.append((pa.item, pb.item, "same"))
+    elif isinstance(pa, TypedDictType) and isinstance(pb, TypedDictType):
+        out += [(pa.items[k], pb.items[k], "either") for k in pa.items if k in pb.items]
     else:
         # fixed tuple against tuple[X, ...] / Sequence[X] / Iterable[X]: every item against X
         from mypy.types import TUPLE_LIKE_INSTANCE_NAMES
@@ -407,7 +439,7 @@ def run_block(u: Universe, ops: real.Ops, qs, cold_canon, problems: list, label:
                              "warm": r[:300], "warmup": [[o, u.names[x], u.names[y]] for (o, x, y) in qs[:pos]]})
 
 
-def real_passes(ctx: Ctx, u: Universe, ops: real.Ops, idx: list[int], tag: str):
+def real_passes(ctx: Ctx, u: Universe, ops: real.Ops, idx: list[int], tag: str, cache_passes: bool = True):
     """Cold / warm / cold-again over all ordered pairs of `idx`.
     Returns (results of the first cold pass: dict (op,i,j) -> raw result, list of cache-dependence findings)."""
     cold: dict[tuple[str, int, int], object] = {}
@@ -421,9 +453,12 @@ def real_passes(ctx: Ctx, u: Universe, ops: real.Ops, idx: list[int], tag: str):
                 cold[(op, i, j)] = r
                 cold_canon[(op, i, j)] = canon_result(op, r)
     ctx.coverage[f"real_cold_pass_s_{tag}"] = round(time.time() - t0, 1)
+    problems: list = []
+    if not cache_passes:
+        # (pairs of callables never reach the Instance caches: cold answers only)
+        return cold, problems
     # warm pass: blocks of related queries (two groups of 8 types, all ops, both directions), shuffled, one reset
     # per block — every query is answered with the caches filled by the other queries of its block
-    problems: list = []
     order = list(idx)
     ctx.rng.shuffle(order)
     gs = groups_of(order, 8)
@@ -702,7 +737,10 @@ def main(ctx: Ctx) -> None:
     ctx.coverage["universe_size"] = len(u.main_idx)
     ctx.coverage["callable_family_size"] = len(u.fam_idx)
     cold, cache_problems = real_passes(ctx, u, ops, u.main_idx, "main")
-    cold_f, cache_problems_f = real_passes(ctx, u, ops, u.fam_idx, "family")
+    cold_f, cache_problems_f = real_passes(ctx, u, ops, u.fam_idx, "family", cache_passes=False)
+    cold_n, cache_problems_n = real_passes(ctx, u, ops, u.nest_idx, "nest")
+    cache_problems_f = cache_problems_f + cache_problems_n
+    ctx.coverage["nest_family_size"] = len(u.nest_idx)
     seen_cells: set[str] = set()
     for pr in cache_problems + cache_problems_f:
         cell = cache_cell(u, pr)
@@ -720,6 +758,7 @@ def main(ctx: Ctx) -> None:
     reported: set = set()
     law_search(ctx, u, ops, cold, u.main_idx, "main", reported)
     law_search(ctx, u, ops, cold_f, u.fam_idx, "family", reported)
+    law_search(ctx, u, ops, cold_n, u.nest_idx, "nest", reported)
     if diffs and len(ctx.violations) == nviol_before and nviol_cache == 0:
         d = diffs[0]
         ctx.violation(f"correspondence broken: model ≠ code on {len(diffs)} case(s), first: {json.dumps(d)[:400]}; "
@@ -736,7 +775,8 @@ def replay(ctx: Ctx, path: str) -> int:
     rep = body["replay"]
     det = rep.get("detail", rep)
     anns = det.get("annotations") or rep.get("annotations")
-    u = Universe(ctx, annotations=anns, family=det.get("family") or rep.get("family"))
+    u = Universe(ctx, annotations=anns, family=det.get("family") or rep.get("family"),
+                 nest_thorough=det.get("nest_thorough", rep.get("nest_thorough")))
     ops = real.Ops()
 
     def ty(name: str):
